@@ -3,6 +3,10 @@
 import os, sys
 sys.path.insert(0, os.path.join(os.path.dirname(os.path.abspath(__file__)), "..", "lib"))
 import yv
-for v in ("plain", "asan", "small"):
+for v in ("plain", "asan", "small", "asansmall"):
     yv.worker_exe(v)
+for v in ("plain", "asan", "small"):
+    yv.space_exe(v)
+for v in ("sched", "schedsmall", "tsan"):
+    yv.yvbuild.ensure(v)
 print("setup ok")
